@@ -5,7 +5,7 @@
 (* The harness logs, per call: event, arguments, outcome (ok/err/panic),   *)
 (* result handle, the projected post-state, the position index and what    *)
 (* the public API answers.  No expected value is computed outside TLC.     *)
-EXTENDS StamApi, StamRead, StamSerial, Json, IOUtils
+EXTENDS StamApi, StamRead, StamSerial, StamValidation, Json, IOUtils
 
 Rec == ndJsonDeserialize(IOEnv.TRACE)
 
@@ -69,7 +69,7 @@ Resync(r, logged) ==
     ELSE st' = st /\ skip' = TRUE
 
 Mutating(r) ==
-    LET exp    == Apply(st, r.ev, r.a)
+    LET exp    == ApplyV(st, r.ev, r.a)
         logged == CanonState(r.post)
         okOutcome == IF exp.outcome = "either" THEN r.outcome \in {"ok", "err"} ELSE r.outcome = exp.outcome
         okState == r.projok /\ logged = exp.st
@@ -96,18 +96,24 @@ RoundTrip(r) ==
         fmt == r.a.format
         okOutcome == r.outcome = "ok" /\ r.projok
         okInv   == okOutcome /\ SafeStateOK(logged)
-        okView  == okInv /\ RoundTripOK(st, logged, fmt)
+        \* C18: the text file of a resource may have been edited between writing and reading
+        target  == ApplyEdit(st, r.a.edit)
+        okView  == okInv /\ RoundTripOK(target, logged, fmt)
         \* C05 only: writing the reloaded store again gives identical output (C11 and C15 do not promise that)
         okAgain == ~okOutcome \/ fmt # "json" \/ r.x.d1 = r.x.d2
         okPos   == ~okView \/ PosOK(logged, r.pos)
         okApi   == ~okView \/ ~r.api.has \/ ApiOK(logged, r.api)
-    IN IF okOutcome /\ okInv /\ okView /\ okAgain /\ okPos /\ okApi
+    IN IF ~EditInDomain(st, r.a.edit)
+       THEN \* e.g. a deletion after which a selection no longer fits: loading may fail or succeed, nothing is claimed
+            /\ UNCHANGED bad /\ PrintT(<<"OUTOFDOMAIN", l>>)
+            /\ IF okOutcome THEN Resync(r, logged) ELSE st' = st /\ skip' = TRUE
+       ELSE IF okOutcome /\ okInv /\ okView /\ okAgain /\ okPos /\ okApi
        THEN st' = logged /\ UNCHANGED <<skip, bad>>
        ELSE /\ bad' = bad + 1
             /\ PrintT(<<"MISMATCH", l, ToJson([roundtrip |-> TRUE, outcome |-> "ok",
                                               ok |-> [outcome |-> okOutcome, inv |-> okInv, view |-> okView, again |-> okAgain,
                                                       pos |-> okPos, api |-> okApi],
-                                              view |-> View(st, fmt),
+                                              view |-> View(target, fmt),
                                               got |-> IF okInv THEN View(logged, fmt) ELSE [res |-> <<>>, sets |-> <<>>, anns |-> <<>>],
                                               st |-> IF fmt = "cbor" THEN st ELSE InitState,
                                               api |-> IF okView /\ r.api.has THEN ApiExpected(logged, r.api) ELSE <<>>])>>)
@@ -115,6 +121,8 @@ RoundTrip(r) ==
 
 ReadOnly(r) ==
     LET v == IF r.ev = "Lookup" THEN ReadOK(st, r)
+             ELSE IF r.ev = "Validate"
+                  THEN LET exp == ValidateExpected(st) IN [ok |-> r.outcome = "ok" /\ r.api = exp, expected |-> exp]
              ELSE IF r.ev \in ReadEvents
                   THEN LET exp == ReadExpected(st, r.ev, r.a)
                        IN [ok |-> r.outcome = "ok" /\ ReadMatches(st, r.ev, r.a, exp, r.api), expected |-> exp]
@@ -130,7 +138,7 @@ Step ==
        IN IF r.ev = "Reset" THEN st' = InitState /\ skip' = FALSE /\ UNCHANGED bad
           ELSE IF skip THEN UNCHANGED <<st, skip, bad>> /\ PrintT(<<"SKIPPED", l>>)
           ELSE IF r.ev \in RoundTripEvents THEN RoundTrip(r)
-          ELSE IF r.ev \in MutatingEvents THEN Mutating(r)
+          ELSE IF r.ev \in MutatingEventsV THEN Mutating(r)
           ELSE ReadOnly(r)
 
 TraceInit == l = 1 /\ st = InitState /\ skip = FALSE /\ bad = 0
